@@ -146,6 +146,21 @@ func c16manualTxn(c *Ctx, p *load.Program, st *ssa.Function) bool {
 
 func c16onDisk(c *Ctx, p *load.Program) {
 	R := c.R
+	// a lookup hands out its own copy of the stored value: ValueCopy(nil) allocates; a destination
+	// buffer that is shared (pooled, reused) makes an earlier result change under the caller
+	ncopy := 0
+	for _, f := range p.SrcFuncs(pkgDB) {
+		eachInstr(f, func(i ssa.Instruction) {
+			cl, ok := i.(*ssa.Call)
+			if !ok || !strings.HasSuffix(facts.CalleeName(&cl.Call), "badger.Item).ValueCopy") {
+				return
+			}
+			ncopy++
+			R.Check("C16.intact", R.Key("C16.intact", shortFn(f), "ValueCopy"), c.rel(p.Pos(cl.Pos())), "a stored value is returned as a freshly allocated copy (ValueCopy(nil))", isNilConst(cl.Call.Args[1]),
+				"ValueCopy into "+facts.Term(cl.Call.Args[1])+": the bytes returned to one caller are overwritten by the next lookup")
+		})
+	}
+	R.Floor("C16.intact", ncopy, 1)
 	// ---- on-disk
 	nopen := 0
 	for _, s := range callsNamed(p, "", "badger.Open") {
